@@ -176,19 +176,24 @@ def dump_real(mod) -> dict:
             "vt": sorted((name_id(n), i) for n, i in (c.vtable or {}).items()),
             "es": [entry(e) for e in c.vtable_entries],
             "tv": [(idx[id(t)], [entry(e) for e in es]) for t, es in c.trait_vtables.items()],
+            "children": [idx[id(k)] for k in (c.children or []) if id(k) in idx],
         }
         if any(e.shadow_method is not None for e in c.vtable_entries):
             out["shadow"] = True
         out["classes"].append(rec)
     out["nonequiv"] = nonequiv
+    # ClassIR.is_method_final for every method name of the module, on every class
+    inv = sorted((nid, n) for n, nid in names.items() if any(nid == m for r in out["classes"] for m, _ in r["methods"]))
+    for c, r in zip(classes, out["classes"]):
+        r["mf"] = ",".join(f"{nid}:{int(bool(c.is_method_final(n)))}" for nid, n in inv)
     return out
 
 
 def model_line(real: dict) -> str:
     toks = []
     for r in real["classes"]:
-        toks.append("%s:%s:%s" % ("T" if r["trait"] else "C", ",".join(map(str, r["mro"])),
-                                  ",".join(f"{n}/{s}" for n, s in r["methods"])))
+        toks.append("%s:%s:%s:%s" % ("T" if r["trait"] else "C", ",".join(map(str, r["mro"])),
+                                     ",".join(f"{n}/{s}" for n, s in r["methods"]), ",".join(map(str, r["children"]))))
     return "V " + " ".join(toks)
 
 
@@ -310,7 +315,7 @@ def run(ctx: Ctx, col=None) -> None:
         if real["nonequiv"] or real["shadow"]:
             ctx.dist("vt_outside_model", "nonequiv-sig" if real["nonequiv"] else "shadow")
             continue
-        wf = parts[0].strip() == "wf=1"
+        wf = "wf=1" in parts[0] and "sc=1" in parts[0]
         if not wf:
             # the theorem's hypothesis fails on a real ClassIR graph
             ctx.count("disagreements_checked")
@@ -323,6 +328,20 @@ def run(ctx: Ctx, col=None) -> None:
         mclasses = [p.strip() for p in parts[1:]]
         rclasses = [real_class_line(r) for r in real["classes"]]
         mstrip = [m.rsplit(" g=", 1)[0] for m in mclasses]
+        mmf = [m.rsplit(" mf=", 1)[1] if " mf=" in m else "" for m in mclasses]
+        rmf = [r["mf"] for r in real["classes"]]
+        ctx.count("vt_is_method_final_answers_compared", sum(len(x.split(",")) for x in rmf if x))
+        if mmf != rmf:
+            ndiff += 1
+            ctx.count("disagreements_checked")
+            k = next((i for i, (a, b) in enumerate(zip(mmf, rmf)) if a != b), 0)
+            inv_names = {v: kk for kk, v in real["names"].items()}
+            bad_names = [inv_names.get(int(x.split(":")[0]), x) for x, y in zip(mmf[k].split(","), rmf[k].split(",")) if x != y]
+            violation_nf(ctx, "vt-mf", "ClassIR.is_method_final(%s) on class %s differs from Model/VTable.lean isMethodFinal (impl %s, model %s); "
+                         "a compiled-vs-CPython difference has to come from the special-method / program search" % (
+                             ", ".join(bad_names[:3]), real["cls_names"][k], rmf[k], mmf[k]),
+                         {"broken": "correspondence Driver/C05 `V` mf= vs ClassIR.is_method_final", "kind": "vtable", "source": src,
+                          "class": real["cls_names"][k], "model": mmf[k], "impl": rmf[k]})
         if mstrip != rclasses:
             ndiff += 1
             ctx.count("disagreements_checked")
@@ -372,7 +391,8 @@ def gen_model_line(h: Hierarchy) -> str:
             if kind == "prop" and arg == "rw":
                 sn = names.setdefault("__mypyc_setter__" + m, len(names))
                 ms.append(f"{sn}/{sn * 100 + RET_T.index(ret)}")
-        toks.append("%s:%s:%s" % ("T" if c["trait"] else "C", ",".join(str(idx[k]) for k in c["mro"]), ",".join(ms)))
+        kids = [str(idx[k["name"]]) for k in h.classes if c["name"] in k["bases"]]
+        toks.append("%s:%s:%s:%s" % ("T" if c["trait"] else "C", ",".join(str(idx[k]) for k in c["mro"]), ",".join(ms), ",".join(kids)))
     return "V " + " ".join(toks)
 
 
@@ -388,6 +408,6 @@ def replay(ctx: Ctx, det: dict) -> None:
     real = dump_real(fr.modules["m"])
     out = ctx.lean_driver("Driver/C05.lean", [model_line(real)])
     print("model :", out[0])
-    print("impl  :", " ; ".join(real_class_line(r) for r in real["classes"]))
+    print("impl  :", " ; ".join(real_class_line(r) + " mf=" + r["mf"] for r in real["classes"]))
     bad, n = real_dispatch_check(real, src)
     print(f"dispatch triples checked against CPython: {n}, mismatches: {json.dumps(bad[:5])}")
